@@ -1,4 +1,127 @@
-/- oracle_c17 — placeholder driver (replaced when the C17 model is added). -/
+/-
+  oracle_c17 — line-protocol driver for Model.Balances / Spec.Balances (stateful: one node state).
+  Byte strings hex ("-" = empty), numbers decimal.
+    reset                                                  -> ok
+    add     <txid> <height> <cb:0|1> <nouts> {<vout> <value> <script>}*   commit.do_add        -> ok
+    undoadd <txid> <height> <cb:0|1> <nouts> {<vout> <value> <script>}*   UndoBlockTxs addback -> ok
+    del     <key8> <mask: string of 0/1 | ->               UnspentDB.del from commit           -> ok
+    undodel <key8> <n>                                     UndoBlockTxs first loop             -> ok
+    enable  <min> <usemapcnt>                              LoadBalancesFromUtxo                -> ok
+    disable                                                Disable                             -> ok
+    dump        -> on <0|1> {K <idx> <uidx> <value> <ismap> <n> {<key8>:<vout>}*}*   (unsorted)
+    utxo        -> {<txid>:<vout>:<value>:<height>:<cb>:<script>}*                     (unsorted)
+    getall <idx> <payload>  -> total <value> {<txid>:<vout>:<value>:<height>:<cb>}*    (model GetAllUnspent)
+    proj   <idx> <payload>  -> total <sum>   {<txid>:<vout>:<value>:<height>:<cb>}*    (Spec projection)
+    sip <bytes>             -> <decimal ourHash>
+    s2i <script>            -> none | <idx> <uidx> <payload>
+-/
+import GocoinV.Spec.Balances
 import GocoinV.Base.Proto
-open GocoinV
-def main : IO Unit := Proto.serve () (fun _ _ => ((), "bad-op"))
+open GocoinV GocoinV.Model.Balances GocoinV.Spec.Balances
+
+def H : Bytes → Nat := ourHash
+
+def parseOuts (n : Nat) : List String → Option (List (Option Out))
+  | toks =>
+    let rec go (acc : List (Option Out)) : List String → Option (List (Option Out))
+      | [] => some acc
+      | v :: val :: scr :: rest =>
+        match v.toNat?, val.toNat?, Hex.decode scr with
+        | some v, some val, some scr =>
+          if v < acc.length then go (acc.set v (some { value := val, script := scr })) rest else none
+        | _, _, _ => none
+      | _ => none
+    go (List.replicate n none) toks
+
+def parseRec : List String → Option Rec
+  | txid :: h :: cb :: n :: rest =>
+    match Hex.decode txid, h.toNat?, n.toNat? with
+    | some txid, some h, some n =>
+      if txid.length ≠ 32 ∨ (cb ≠ "0" ∧ cb ≠ "1") then none else
+      match parseOuts n rest with
+      | some outs => some { txid := txid, inBlock := h, coinbase := cb == "1", outs := outs }
+      | none => none
+    | _, _, _ => none
+  | _ => none
+
+def parseMask (s : String) : Option (List Bool) :=
+  if s == "-" then some [] else
+  s.toList.mapM (fun c => if c == '0' then some false else if c == '1' then some true else none)
+
+def unspStr (u : Unspent) : String :=
+  s!"{Hex.encode u.txid}:{u.vout}:{u.value}:{u.minedAt}:{Proto.boolStr u.coinbase}"
+
+def dumpBal (s : State) : String :=
+  let recs := s.bal.map fun (k, b) =>
+    let ents := b.unsp.map fun (key, v) => s!"{Hex.encode key}:{v}"
+    " ".intercalate ([s!"K {k.1} {k.2} {b.value} {Proto.boolStr b.isMap} {b.unsp.length}"] ++ ents)
+  " ".intercalate ([s!"on {Proto.boolStr s.on}"] ++ recs)
+
+def dumpUtxo (s : State) : String :=
+  let rec outs (r : Rec) : List (Option Out) → Nat → List String
+    | [], _ => []
+    | none :: t, j => outs r t (j + 1)
+    | some o :: t, j =>
+      s!"{Hex.encode r.txid}:{j}:{o.value}:{r.inBlock}:{Proto.boolStr r.coinbase}:{Hex.encode o.script}" :: outs r t (j + 1)
+  let l := s.utxo.flatMap fun p => outs p.2 p.2.outs 0
+  if l.isEmpty then "-" else " ".intercalate l
+
+def parseAddr (idx payload : String) : Option Addr :=
+  match idx.toNat?, Hex.decode payload with
+  | some i, some p =>
+    if i < 5 ∧ p.length = (if i < 3 then 20 else 32) then some { idx := i, payload := p } else none
+  | _, _ => none
+
+def step' (s : State) (toks : List String) : State × String :=
+  let bad := (s, "bad-op")
+  match toks with
+  | ["reset"] => (State.init, "ok")
+  | "add" :: rest =>
+    match parseRec rest with
+    | some r => (step H s (.add r), "ok")
+    | none => bad
+  | "undoadd" :: rest =>
+    match parseRec rest with
+    | some r => (step H s (.undoAdd r), "ok")
+    | none => bad
+  | ["del", key, mask] =>
+    match Hex.decode key, parseMask mask with
+    | some key, some mask => if key.length = 8 then (step H s (.del key mask), "ok") else bad
+    | _, _ => bad
+  | ["undodel", key, n] =>
+    match Hex.decode key, n.toNat? with
+    | some key, some n => if key.length = 8 then (step H s (.undoDel key n), "ok") else bad
+    | _, _ => bad
+  | ["enable", mn, um] =>
+    match mn.toNat?, um.toNat? with
+    | some mn, some um => (step H s (.enable mn um), "ok")
+    | _, _ => bad
+  | ["disable"] => (step H s .disable, "ok")
+  | ["dump"] => (s, dumpBal s)
+  | ["utxo"] => (s, dumpUtxo s)
+  | ["getall", idx, payload] =>
+    match parseAddr idx payload with
+    | some a =>
+      let l := getAllUnspent H s a
+      (s, " ".intercalate ([s!"total {total H s a}"] ++ l.map unspStr))
+    | none => bad
+  | ["proj", idx, payload] =>
+    match parseAddr idx payload with
+    | some a =>
+      let l := projection s.cfg.min s.utxo a
+      (s, " ".intercalate ([s!"total {sumValues l}"] ++ l.map unspStr))
+    | none => bad
+  | ["sip", b] =>
+    match Hex.decode b with
+    | some b => (s, s!"{ourHash b}")
+    | none => bad
+  | ["s2i", scr] =>
+    match Hex.decode scr with
+    | some scr =>
+      match scriptForm scr with
+      | some (i, p) => (s, s!"{i} {H p} {Hex.encode p}")
+      | none => (s, "none")
+    | none => bad
+  | _ => bad
+
+def main : IO Unit := Proto.serve State.init step'
